@@ -17,6 +17,9 @@ REPO = os.environ.get('VX_REPO', '/repo')
 VERIF = os.path.dirname(os.path.dirname(os.path.abspath(__file__)))
 
 
+CONST_RENAMES = []
+
+
 class GenError(Exception):
     """Lost anchor / unsupported construct: exit 2, never an alarm."""
 
@@ -87,7 +90,48 @@ def _find_matching(text, i):
     return match_close(m, i)
 
 
+def _bytes_of_literal(lit):
+    """bytes of a Rust byte-string literal body (between the quotes)"""
+    out = []
+    i = 0
+    while i < len(lit):
+        c = lit[i]
+        if c == '\\':
+            n = lit[i + 1]
+            if n == 'n': out.append(10); i += 2
+            elif n == 'r': out.append(13); i += 2
+            elif n == 't': out.append(9); i += 2
+            elif n == '0': out.append(0); i += 2
+            elif n == '\\': out.append(92); i += 2
+            elif n == '"': out.append(34); i += 2
+            elif n == "'": out.append(39); i += 2
+            elif n == 'x': out.append(int(lit[i + 2:i + 4], 16)); i += 4
+            else: raise GenError('unsupported escape in byte string literal: \\' + n)
+        else:
+            out.append(ord(c)); i += 1
+    return out
+
+
+def rule_byte_strings(body, applied):
+    """R20: byte-string literal b"..." -> (&[0x..u8, ...]) with the same bytes (Verus gives no contents to b"...")."""
+    cnt = 0
+    def repl(m):
+        nonlocal cnt
+        cnt += 1
+        bs = _bytes_of_literal(m.group(1))
+        return '(&[' + ', '.join('0x%02xu8' % b for b in bs) + '])'
+    body = re.sub(r'(?<![A-Za-z0-9_])b"((?:[^"\\]|\\.)*)"', repl, body)
+    if cnt:
+        applied.append({'rule': 'R20', 'byte_string_literals': cnt})
+    return body
+
+
 def rule_lexical(body, applied):
+    body = rule_byte_strings(body, applied)
+    for cname in CONST_RENAMES:
+        body, n = re.subn(r'\b' + re.escape(cname) + r'\b(?!\()', cname + '_v()', body)
+        if n:
+            applied.append({'rule': 'R20', 'const': cname, 'count': n})
     rules = [
         ('R1', r'\.to_le_bytes\(\)', '.to_le_bytes_v()'),
         ('R1', r'\.to_be_bytes\(\)', '.to_be_bytes_v()'),
@@ -381,6 +425,16 @@ def splice(body, contract, applied):
             if arg.strip() == 'R9':
                 body, n = re.subn(r'\.iter\(\)', '.iter_v()', body)
                 applied.append({'rule': 'R9', 'pattern': '.iter() -> .iter_v()', 'count': n})
+            elif arg.strip().startswith('R18'):
+                names = arg.split()[1:]
+                n = 0
+                for nm in names:
+                    if nm == 'slices':
+                        body, k = re.subn(r'(\[[^\[\]]*\.\.[^\[\]]*\])\.into\(\)', r'\1.to_vec()', body)
+                    else:
+                        body, k = re.subn(r'\b' + re.escape(nm) + r'\.into\(\)', nm + '.to_vec()', body)
+                    n += k
+                applied.append({'rule': 'R18', 'pattern': '<byte slice>.into() -> .to_vec() (From<&[u8]> for Vec<u8>)', 'count': n})
             elif arg.strip() == 'R19':
                 body, n = re.subn(r'\.try_into\(\)', '.try_into_v()', body)
                 applied.append({'rule': 'R19', 'pattern': 'slice.try_into() -> slice.try_into_v() (std slice-to-array TryFrom)', 'count': n})
@@ -774,6 +828,7 @@ def expand(unit, db=None, outdir=None, variant=None):
     db = db if db is not None else load_contracts()
     outdir = outdir or os.path.join(VERIF, 'work')
     os.makedirs(outdir, exist_ok=True)
+    del CONST_RENAMES[:]
     info = {'unit': unit, 'variant': variant, 'functions': [], 'stubs': [], 'types': [], 'assumptions': [], 'includes': []}
     lines = []
     pending_rest = []
@@ -803,6 +858,9 @@ def expand(unit, db=None, outdir=None, variant=None):
                 if key not in db:
                     raise GenError('unit %s: no contract for %s' % (unit, key))
                 lines.append(emit_fn(db[key], kind == 'fn', info))
+            elif s.startswith('//@constbytes '):
+                m = re.match(r'//@constbytes\s+(\w+)\s+@\s+(\S+)\s*$', s)
+                lines.append(const_bytes(m.group(1), m.group(2), info))
             elif s.startswith('//@stubrest '):
                 owner = s.split(None, 1)[1].strip()
                 pending_rest.append((len(lines), owner))
@@ -862,6 +920,20 @@ def check_all_mut(typ, relpaths, info):
             if re.search(r'\(\s*&\s*mut\s+self\b', sig):
                 found.append((name, rp, line))
     info.setdefault('mut_methods', []).extend(found)
+
+
+def const_bytes(name, relpath, info):
+    """`const NAME: &[u8] = b"...";` -> assumed-accessor fn NAME_v() with the literal's bytes; uses are renamed (R20)."""
+    src = open(os.path.join(REPO, relpath)).read()
+    m = re.search(r'\bconst\s+' + re.escape(name) + r'\s*:\s*&(?:\'static\s+)?\[u8\]\s*=\s*b"((?:[^"\\\\]|\\\\.)*)"\s*;', src)
+    if not m:
+        raise GenError('const %s not found as a byte-string constant in %s (lost anchor)' % (name, relpath))
+    bs = _bytes_of_literal(m.group(1))
+    if name not in CONST_RENAMES:
+        CONST_RENAMES.append(name)
+    info['types'].append({'kind': 'const', 'name': name, 'source': relpath, 'bytes': len(bs)})
+    return ('#[verifier::external_body] pub fn %s_v() -> (r: &\'static [u8]) ensures r@ == seq![%s] { unimplemented!() }\n'
+            % (name, ', '.join('0x%02xu8' % b for b in bs)))
 
 
 def enum_table(name, relpath, fname, info):
